@@ -37,7 +37,7 @@ def drive(ctx):
     for zn in my:
         zr = {"n": zn, "fo": 0}
         trs = zone_transitions(ctx, zn)
-        trs = pick(rnd, trs, (10 if full else 3) if q else 24)
+        trs = pick(rnd, trs, (10 if full else 3) if q else 12)
         for (sec, b, a) in trs:
             g = abs(a - b) or 3600
             ps = probes(sec, b, a)
